@@ -383,7 +383,7 @@ def run(pid, tier, seed, gate, replay=None):
         violations.append(dict(replay=rp, what=o2[1]))
     # correspondence: the extracted one-key hybrid model against the implementation on deterministic histories
     corr = None
-    if pid in ("C01", "C12", "C15") and not replay:
+    if pid in ("C01", "C12", "C15", "C04", "C03") and not replay:
         from . import hybcorr as X
         C.build_ocaml()
         crng = random.Random(seed * 31 + 5)
